@@ -107,8 +107,8 @@ def model_predictions(scn, cevents, variants):
     where = {}
     sigs = [sig_of_event(c) for c in cevents]
     for vi, v in enumerate(variants):
-        if v["kind"] == "fsize":
-            continue                    # no single primitive op is the fault: oracle only
+        if v["kind"] in ("fsize", "error_read"):
+            continue                    # no single mutating primitive op is the fault: oracle only
         n = sum(1 for s_ in sigs[: v["index"]] if s_ is not None)
         torn = v["kind"] in ("midwrite", "error_write", "error_close")
         if v["kind"] == "crash_after":
@@ -202,7 +202,7 @@ def run_variant(base_root, scn, sc, backend, variant):
             fault = dict(kind="crash", index=variant["index"])
         elif kind == "midwrite":
             fault = dict(kind="crash", index=variant["index"] + 1)
-        elif kind in ("error_event", "error_write", "error_close", "crash_after"):
+        elif kind in ("error_event", "error_write", "error_close", "crash_after", "error_read"):
             fault = dict(kind=kind, index=variant["index"])
         elif kind == "fsize":
             fault = dict(kind="fsize", limit=variant["limit"])
@@ -246,6 +246,11 @@ def enumerate_scenario(chk, scn, backend, workers=16, use_model=True):
     copy_store(base, ref_root)
     ref = child(dict(root=ref_root, cache_mb=BACKENDS[backend], calls=[sc["target"]], fault=None, then=sc["matrix"]))
     events = ref["events"]
+    # (reads of the target call alone: a second fault-free run without the matrix)
+    ref2_root = tempfile.mkdtemp(prefix="c08r2_", dir=chk.tmpdir())
+    copy_store(base, ref2_root)
+    ref["reads_during_target"] = child(dict(root=ref2_root, cache_mb=BACKENDS[backend], calls=[sc["target"]], fault=None, then=[])).get("reads", 0)
+    shutil.rmtree(ref2_root, ignore_errors=True)
     cevents = [canon_event(e, ref_root) for e in events]
     ref_fails = judge(sc, ref["results"] + ref["then"])
     variants = []
@@ -259,6 +264,9 @@ def enumerate_scenario(chk, scn, backend, workers=16, use_model=True):
             variants.append(dict(kind="error_close", index=i, event=ce))
             for cut in ("empty", "half"):
                 variants.append(dict(kind="midwrite", index=i, event=ce, cut=cut, path_rel=ce.split(" ", 1)[1]))
+    # a transient error on each file opened for reading during the faulted call (existence checks of content keys, links)
+    for i in range(ref.get("reads_during_target", 0)):
+        variants.append(dict(kind="error_read", index=i, event="read #%d" % i))
     # kernel-level file size limits during the whole faulted call (short writes of whichever file crosses the limit)
     for lim in (64, 300, 700, 1300, 2600):
         variants.append(dict(kind="fsize", index=0, event="RLIMIT_FSIZE=%d" % lim, limit=lim))
@@ -314,7 +322,7 @@ def main(chk, replay=None):
     chk.rule = ("scenarios {scalar, dedup hit, exception, 2-key partition, null with override, override rewrite, populated store, "
                 "partition merged on a nested call's partition} x backends {fs, fs+cache, fs+cache smaller than any result}; for each, EVERY mutating primitive op (mkdir, open-for-write, rename, remove under the "
                 "root) recorded in a fault-free run gives the variants crash-before, ENOSPC-at-op, and for file opens "
-                "EFBIG-on-write and crash-mid-write (file left empty / half); plus the whole call under 5 kernel file-size limits "
+                "EFBIG-on-write and crash-mid-write (file left empty / half); a transient ESTALE on every file opened for reading during the call; plus the whole call under 5 kernel file-size limits "
                 "(RLIMIT_FSIZE: real short writes). Each variant is produced with real child "
                 "processes, then the call matrix runs in the same process (error variants) and in a fresh process. "
                 "Distinct = distinct (scenario, backend, variant); all are non-trivial (each damages a real store).")
